@@ -261,6 +261,12 @@ func (p *Proxy) handleLoop(conn net.Conn) {
 			log.Debugf("martian: closing connection: %v", conn.RemoteAddr())
 			return
 		}
+		if s.Hijacked() {
+			// The hijacker owns the connection now; stop reading from it and
+			// close it, as Session.Hijack documents.
+			log.Debugf("martian: connection hijacked, closing: %v", conn.RemoteAddr())
+			return
+		}
 	}
 }
 
